@@ -56,7 +56,7 @@ pub fn render_with(
 ) -> Result<Rendered, String> {
     // The bar lives outside the catch_unwind: if a draw panics, dropping the bar would draw (and
     // panic) again while unwinding, which aborts the process. A bar that panicked is leaked.
-    let (pb, spy) = new_bar(width, 500, len);
+    let (pb, spy) = new_bar(width, 60000, len);
     let res = catch_unwind(AssertUnwindSafe(|| {
         pb.set_style(style);
         setup(&pb);
